@@ -217,6 +217,37 @@ pub proof fn lemma_sig_concat_edges(ch: Seq<&SyntaxNode>, a: int, b: int)
     assert forall|k: int| 0 <= k < r.len() implies sig_leaves(#[trigger] r[k]).len() == 0 by { assert(r[k] == ch[b + k]); }
     lemma_sig_concat_wordless(l); lemma_sig_concat_wordless(r);
 }
+/// only the children at the three given positions carry words
+pub proof fn lemma_sig_concat_three(ch: Seq<&SyntaxNode>, a: int, b: int, c: int)
+    requires 0 <= a < b < c < ch.len(), forall|k: int| 0 <= k < ch.len() && k != a && k != b && k != c ==> sig_leaves(#[trigger] ch[k]).len() == 0,
+    ensures sig_concat(ch) =~= sig_leaves(ch[a]) + sig_leaves(ch[b]) + sig_leaves(ch[c]),
+{
+    let n = ch.len() as int;
+    // [0, b) has only a; [b, n) has b and c
+    lemma_sig_concat_split(ch, b);
+    let l = ch.subrange(0, b);
+    let r = ch.subrange(b, n);
+    assert forall|k: int| 0 <= k < l.len() && !(a <= k < a + 1) implies sig_leaves(#[trigger] l[k]).len() == 0 by { assert(l[k] == ch[k]); }
+    lemma_sig_concat_edges(l, a, a + 1);
+    assert(l.subrange(a, a + 1) =~= seq![ch[a]]);
+    reveal_with_fuel(sig_concat, 2);
+    assert(seq![ch[a]].drop_last() =~= Seq::<&SyntaxNode>::empty());
+    assert(sig_concat(seq![ch[a]]) =~= sig_leaves(ch[a]));
+    // right part: split at c - b
+    lemma_sig_concat_split(r, c - b);
+    let rl = r.subrange(0, c - b);
+    let rr = r.subrange(c - b, r.len() as int);
+    assert forall|k: int| 0 <= k < rl.len() && !(0 <= k < 1) implies sig_leaves(#[trigger] rl[k]).len() == 0 by { assert(rl[k] == ch[b + k]); }
+    lemma_sig_concat_edges(rl, 0, 1);
+    assert(rl.subrange(0, 1) =~= seq![ch[b]]);
+    assert(seq![ch[b]].drop_last() =~= Seq::<&SyntaxNode>::empty());
+    assert(sig_concat(seq![ch[b]]) =~= sig_leaves(ch[b]));
+    assert forall|k: int| 0 <= k < rr.len() && !(0 <= k < 1) implies sig_leaves(#[trigger] rr[k]).len() == 0 by { assert(rr[k] == ch[c + k]); }
+    lemma_sig_concat_edges(rr, 0, 1);
+    assert(rr.subrange(0, 1) =~= seq![ch[c]]);
+    assert(seq![ch[c]].drop_last() =~= Seq::<&SyntaxNode>::empty());
+    assert(sig_concat(seq![ch[c]]) =~= sig_leaves(ch[c]));
+}
 /// PF13: below a Math or Markup node there are only expressions and tokens
 #[verifier::external_body]
 pub proof fn pf_math_children(n: &SyntaxNode)
